@@ -257,6 +257,13 @@ def r2_4(ctx):
             n += 1
             ctx.check(not ({a, b} == {"cells", "chars"} or "mixed" in (a, b)), f.fq, norm(x), f"{m.relpath}:{x.lineno}", f"comparison of {a or 'unitless'} with {b or 'unitless'}",
                       f"`{norm(x)}` compares a cell width with a character count: lines overflow (or break early) for double-width / zero-width characters")
+        if isinstance(x, ast.Assign) and len(x.targets) == 1 and isinstance(x.targets[0], ast.Name) and unit.get(x.targets[0].id) in ("cells", "chars"):
+            # one name, one unit: a running position kept in cells is never re-set from a character count (or the reverse)
+            a, b = unit[x.targets[0].id], u(x.value)
+            if b in ("cells", "chars", "mixed"):
+                n += 1
+                ctx.check(a == b, f.fq, norm(x), f"{m.relpath}:{x.lineno}", f"{x.targets[0].id} stays in {a}",
+                          f"`{norm(x)}` sets `{x.targets[0].id}`, which is counted in {a} elsewhere in divide_line, from a quantity in {b}: after a line that starts with double-width characters the running position is too small and the next words overflow the width")
         if isinstance(x, ast.AugAssign) and isinstance(x.target, ast.Name):
             a, b = unit.get(x.target.id), u(x.value)
             n += 1
